@@ -6,5 +6,8 @@ mkdir -p work evidence/replays
 export CARGO_NET_OFFLINE=true
 [ -f harness/Cargo.lock ] || cp /repo/Cargo.lock harness/Cargo.lock
 (cd harness && cargo build --offline 2>&1 | tail -3)
+# the real binary used by the toplevel check (C29); its own target dir so that later runs are incremental
+cargo build --offline --manifest-path /repo/Cargo.toml --no-default-features --features repl,hostname,crypto-full \
+      --bin scryer-prolog --target-dir work/target-bin 2>&1 | tail -2
 java -version 2>&1 | head -1
 echo "setup done"
